@@ -302,6 +302,7 @@ type c15exec struct {
 	branching []int
 	switches  int
 	hung      bool
+	lockLeft  bool // all goroutines returned, but the final tree could not be read: the dump shows the reader parked on a lock
 	panic     string
 }
 
@@ -348,7 +349,12 @@ func c15execute(p c15program, prefix []int, rnd *rand.Rand) c15exec {
 	ex := c15exec{trace: s.trace, branching: s.branching, switches: s.switches, hung: !ok, panic: panicked}
 	if ok {
 		wr.Hook, wr.Notify = nil, nil
-		ex.outcome = c15outcome(results, fsys)
+		// every goroutine has returned: the store must be free. Reading the final tree under a watchdog catches a lock
+		// that one of the operations never released (the read would otherwise park this process for good).
+		if hung, confirmed := withWatchdog(func() { ex.outcome = c15outcome(results, fsys) }); hung {
+			ex.hung = true
+			ex.lockLeft = confirmed
+		}
 	}
 	return ex
 }
@@ -596,8 +602,11 @@ func c15sched(env *core.Env, cs c15case, idx int, res *core.CaseResult) {
 		}
 		res.Seen("program_shapes", c15shape(p))
 		if ex != nil {
-			min := c15minimise(p, what, limit, r)
-			mex, _, _ := c15explore(min, limit, r)
+			min, mex := p, ex
+			if what != "hang" { // (every re-execution of a hanging program waits for the watchdog again)
+				min = c15minimise(p, what, limit, r)
+				mex, _, _ = c15explore(min, limit, r)
+			}
 			shape := c15shape(min)
 			detail := fmt.Sprintf("program [%s] (minimised from [%s]): ", min, p)
 			wit := map[string]any{"program": p.String(), "minimal_program": min.String()}
@@ -608,6 +617,9 @@ func c15sched(env *core.Env, cs c15case, idx int, res *core.CaseResult) {
 			switch what {
 			case "hang":
 				detail += "a scheduled execution did not finish: the running goroutine blocked while every other goroutine was parked outside the store lock"
+				if ex.lockLeft {
+					detail = fmt.Sprintf("program [%s]: every goroutine returned, but the final tree could not be read afterwards: the goroutine dump shows the reader parked on the store lock (an operation ended without releasing it)", p)
+				}
 			case "panic":
 				detail += "panic: " + ex.panic
 			default:
